@@ -5,7 +5,7 @@ PROP = dict(
     corr=["Model/FsmCorr.vo", "Model/C22Corr.vo"],
     design_ref="DESIGN.md §6 C22",
     technique="Coq: reflective check on the state tables (an announcing state is entered only from states without a live retransmitter; every edge leaving the live states leads to a state whose action tree calls RemoveSender on every path) proved sound for ARBITRARY tables by induction over the engine model and lifted to all histories with crashes; exec-level lemmas over all action trees; vm_compute on the regenerated tables; three correspondence families on the real code: state-machine scenarios (effects), the real messages.Manager/RedundantMessenger under generated Add/Remove/Wait sequences, and end-to-end runs of the real SwapService with the real Manager and a 1 s retry interval",
-    level_text="Machine-checked for every history of every role with crashes and restarts: no retransmitter is ever started while one is live, and a retransmitter is live only while the stored swap is in the announcing state or in the wait for the taker's reaction (for the code's tables exactly SendTxBroadcastedMessage / AwaitClaim(Invoice)Payment of the two maker roles; takers never retransmit); every successor state's action tree stops the retransmitter on every execution. On the real code: the Manager refuses a second sender per swap id and forgets removed ones (model = observed), at most one copy goes out after RemoveSender returns, and end to end (payment, cancel, coop_close, CSV, invalid message) opening_tx_broadcasted is resent while waiting and at most once afterwards.",
+    level_text="Machine-checked for every history of every role with crashes and restarts: no retransmitter is ever started while one is live, and a retransmitter is live only while the stored swap is in the announcing state or in the wait for the taker's reaction (for the code's tables exactly SendTxBroadcastedMessage / AwaitClaim(Invoice)Payment of the two maker roles; takers never retransmit); every successor state's action tree stops the retransmitter on every execution. Known finding (root cause D10/C09): after a premature opening_tx_broadcasted from the peer the maker starts a retransmitter for its stale NextMessage (the request / fee invoice) instead of opening_tx_broadcasted: refuted in Coq (Findings/F_C22_1.v), reproduced on the real code every run. On the real code: the Manager refuses a second sender per swap id and forgets removed ones (model = observed), at most one copy goes out after RemoveSender returns, and end to end (payment, cancel, coop_close, CSV, invalid message) opening_tx_broadcasted is resent while waiting and at most once afterwards.",
     level_note="Trusted: Coq kernel; hand-written model of actions.go/fsm.go tied by step-level correspondence; Go select/ticker semantics of RedundantMessenger are not modelled: 'at most one already-due copy' is observed on the real type with a 250 ms tick (Manager harness) and the 1 s fast_test interval (end to end), not proved. The production interval (10 s) differs from the tested one only by the constant selected by the fast_test build tag.",
     assumptions=[
         "a process crash ends its retransmitter goroutines (they live in memory only)",
@@ -21,7 +21,24 @@ def sig(c):
         return "c22:manager"
     if c.get("fam") == "e2e":
         return "c22:e2e:%s:%s" % (c.get("role"), c.get("move"))
+    if stale_message(c):
+        return "c22:retransmits-stale-message-after-premature-otb"
     return "c22:fsm:%s" % c.get("role")
+
+
+OTB = 42077
+
+
+def stale_message(c):
+    """a retransmitter was started for a message that is not opening_tx_broadcasted"""
+    for s in c.get("steps", []):
+        effs = s.get("effects") or []
+        for i, e in enumerate(effs):
+            if e.get("e") == "RetransStart":
+                nxt = effs[i + 1] if i + 1 < len(effs) else {}
+                if not (nxt.get("e") == "Send" and nxt.get("type") == OTB):
+                    return True
+    return False
 
 
 def describe(c):
@@ -29,11 +46,25 @@ def describe(c):
         return "real messages.Manager/RedundantMessenger: second sender accepted, or more than one copy after RemoveSender (ops %s)" % c.get("ops")
     if c.get("fam") == "e2e":
         return "end to end: opening_tx_broadcasted resent %s times after the swap moved on by %s (before: %s)" % (c.get("after"), c.get("move"), c.get("before"))
+    if stale_message(c):
+        return "a retransmitter was started for a message that is not opening_tx_broadcasted (role %s)" % c.get("role")
     return "a retransmitter was live outside the wait for the taker's reaction, or started twice (role %s)" % c.get("role")
 
 
+def build_findings(ctx):
+    import glob
+    import os
+    out = {}
+    for f in sorted(glob.glob(os.path.join(vlib.COQ, "Findings", "F_C22_*.v"))):
+        rc, so, se, dt = vlib.sh(["coqc", "-Q", ".", "PS", "-w", "-notation-overridden", os.path.relpath(f, vlib.COQ)],
+                                 cwd=vlib.COQ, timeout=600)
+        out[os.path.basename(f)] = "refutation checks" if rc == 0 else "no longer compiles (defect repaired or model changed)"
+    ctx.extra["findings_refuted_in_coq"] = out
+
+
 def run(ctx):
-    n = 110 if ctx.quick else 1400
+    build_findings(ctx)
+    n = 100 if ctx.quick else 1400
     d = ctx.harness("fsm", args=["-n", n] + MON)
     if d is not None:
         res = vlib.eval_cases(d)
